@@ -18,15 +18,6 @@
 enum { FPH_START = 0, FPH_B1, FPH_B2, FPH_B3, FPH_FF, FPH_BODY, FPH_LINE_READY,
        FPH_END1, FPH_END2, FPH_MARKER, FPH_DONE, FPH_BAD };
 
-static _Bool fmon_on;
-static int fmon_phase;
-static unsigned char fmon_hi, fmon_lo, fmon_blen;   /* the line being framed */
-static size_t fmon_body;          /* file offset of its first body byte */
-static unsigned fmon_rem;         /* bytes of this line still to be consumed */
-static unsigned fmon_total;       /* bytes of this line after the 3/4-byte header */
-static unsigned long fmon_lines;  /* complete lines framed so far */
-static size_t fmon_gk;            /* ghost index (unconstrained, fixed) */
-static int mon_indent_run;        /* running indent per the specification */
 
 #ifndef SPEC_BIG_ENDIAN
 #define SPEC_BIG_ENDIAN (DIALECT == 0 || DIALECT == 2 || DIALECT == 4 || DIALECT == 5)
@@ -51,7 +42,7 @@ static void fmon_line_ready(void)
     /* prefix counts of this line: unknown here, but they satisfy what every count satisfies */
     unsigned short c0 = nondet_ushort(), c1 = nondet_ushort(), c2 = nondet_ushort(), c3 = nondet_ushort();
     __CPROVER_assume(c0 <= mon_len && c1 <= mon_len && c2 <= mon_len && c3 <= mon_len);
-    mon_cnt[0][mon_len] = c0; mon_cnt[1][mon_len] = c1; mon_cnt[2][mon_len] = c2; mon_cnt[3][mon_len] = c3;
+    mon_c0 = c0; mon_c1 = c1; mon_c2 = c2; mon_c3 = c3;
   }
 }
 
